@@ -313,7 +313,7 @@ def check(ctx):
     selection(ctx, ld)
     from rules import independence
     independence.r28_functions(ctx, [(LOAD + '.stripper', {}), (LOAD + '.stringer', {}), (LOAD + '.missing_values_extractor', {}),
-                                     (LOAD + '.limiter', {'count': 'number of rows delivered so far (the limit itself)'})])
+                                     (LOAD + '.limiter', {'__kinds__': ('COUNTER',)})])
     stream.r26_append_order(ctx)
     run.trusted += ['tabulator Stream yields one keyed row per data line in file order']
     run.not_decided += ['CSV fidelity (tabulator), inference results, header renaming format on concrete names',
